@@ -117,6 +117,10 @@ PROPS = {
 SKIP_HARNESSES = {
     "c05_mov_load": "solver out of memory at 12 GB (symbolic base x index x scale x segment together with a symbolic-offset memory access)",
     "c05_mov_store": "same as c05_mov_load",
+    "gd_Idiv_rm64_reg": "two 128-bit divider circuits (two runs of IDIV r/m64) exceed 25 min; determinism of the 8/16/32-bit forms follows from their C01 obligations",
+    "gd_Idiv_rm64_mem": "same as gd_Idiv_rm64_reg",
+    "gd_Div_rm64_reg": "same as gd_Idiv_rm64_reg",
+    "gd_Div_rm64_mem": "same as gd_Idiv_rm64_reg",
     "c18_render": "solver out of memory at 12 GB / cbmc crash (str::repeat with a symbolic count); an earlier configuration of this harness "
                   "found the capacity-overflow abort for negative nesting levels that commit bb81d1c repairs",
 }
